@@ -335,9 +335,19 @@ func (e *env) manifests(rng *rand.Rand) {
 			_, hex, _ := strings.Cut(m.D, ":")
 			decl = o + ":" + hex
 		}
-		how := []string{"digest", "tag+param", "tag"}[rng.Intn(3)]
+		how := []string{"digest", "tag+param", "tag", "digest+param"}[rng.Intn(4)]
 		url := "/v2/" + repo + "/manifests/"
 		switch how {
+		case "digest+param":
+			// two declarations: the digest in the path is right, the one in the parameter is the varied one (right,
+			// or not matching the bytes) - possibly of another algorithm
+			url += m.D + "?digest=" + decl
+			if kind == "right" && rng.Intn(2) == 0 {
+				decl2 := vh.DigestOf(algs[rng.Intn(3)], m.Raw)
+				url = "/v2/" + repo + "/manifests/" + m.D + "?digest=" + decl2
+			}
+			e.probe[decl] = true
+			decl = m.D
 		case "digest":
 			url += decl
 		case "tag+param":
@@ -366,7 +376,7 @@ func (e *env) manifests(rng *rand.Rand) {
 			if how == "tag" {
 				prev = nil // (m.D may be of another algorithm than the one the push was stored under)
 			}
-			if how != "digest" {
+			if how == "tag" || how == "tag+param" {
 				// by tag: the answer must report a digest the bytes hash to
 				rq := vh.Req{Method: "GET", URL: fmt.Sprintf("/v2/%s/manifests/tg%d", repo, n), H: map[string]string{"Accept": vh.AcceptAll}}
 				g := e.do(rq)
